@@ -56,6 +56,17 @@ func scenarios(c *vlib.Ctx) []*slib.Scn {
 	for _, sq := range seqs(t1, 3) {
 		if len(sq) == 3 {
 			add("one-submitter", modules.C07Params{Scripts: [][]string{sq}, Tasks: 1, Body: "plain"}, vlib.Pick(c, 1, 2))
+			// the same three calls, the last one after everything submitted before has been processed
+			add("one-submitter-idle", modules.C07Params{Scripts: [][]string{{sq[0], sq[1], "w", sq[2]}}, Tasks: 1, Body: "plain"}, vlib.Pick(c, 1, 2))
+		}
+	}
+	// without the maximum-delay fallback (MaxDelay(0)): queueing calls before and after a run of the task
+	for _, x := range []string{"q1", "p1", "a1"} {
+		for _, y := range []string{"q1", "p1", "a1"} {
+			for _, z := range []string{"q1", "p1", "a1"} {
+				add("no-max-delay", modules.C07Params{Scripts: [][]string{{"m1", x, y, "w", z}}, Tasks: 1, Body: "plain"}, vlib.Pick(c, 1, 2))
+				add("no-max-delay", modules.C07Params{Scripts: [][]string{{"m1", x, "w", y, z}}, Tasks: 1, Body: "plain"}, vlib.Pick(c, 1, 2))
+			}
 		}
 	}
 	// other task bodies
